@@ -54,15 +54,19 @@ def gen_model(rng, idx, only_ind=False):
     inp = Input((8, 8, 2), name=f"i{idx}")
     x = inp
     for j in range(int(rng.integers(1, 3))):
-      t = int(rng.integers(0, 3))
+      t = int(rng.integers(0, 4))
       ub = bool(rng.integers(0, 3))
-      if t == 0:
+      if t == 3:
+        n = f"mb{idx}_{j}"
+        x = qkeras.QMobileNetSeparableConv2D(int(rng.integers(1, 4)), 3, padding="same", use_bias=ub, depthwise_quantizer=wq(n, "depthwise"),
+                                             pointwise_quantizer=wq(n, "pointwise"), bias_quantizer=wq(n, "bias", BQ) if ub else None, name=n)(x)
+      elif t == 0:
         n = f"c{idx}_{j}"
         x = qkeras.QConv2D(int(rng.integers(1, 4)), 3, padding="same", use_bias=ub, kernel_quantizer=wq(n, "kernel"),
                            bias_quantizer=wq(n, "bias", BQ) if ub else None, activation=pick(rng, AQ), name=n)(x)
       elif t == 1:
         n = f"dw{idx}_{j}"
-        x = qkeras.QDepthwiseConv2D(3, padding="same", use_bias=ub, depthwise_quantizer=wq(n, "depthwise"),
+        x = qkeras.QDepthwiseConv2D(3, padding="same", depth_multiplier=int(rng.integers(1, 3)), use_bias=ub, depthwise_quantizer=wq(n, "depthwise"),
                                     bias_quantizer=wq(n, "bias", BQ) if ub else None, activation=pick(rng, AQ), name=n)(x)
       else:
         n = f"sp{idx}_{j}"
@@ -75,8 +79,13 @@ def gen_model(rng, idx, only_ind=False):
     inp = Input((10, 3), name=f"i{idx}")
     n = f"c1_{idx}"
     ub = bool(rng.integers(0, 3))
-    x = qkeras.QConv1D(int(rng.integers(1, 4)), 3, padding=pick(rng, ["valid", "same"]), use_bias=ub, kernel_quantizer=wq(n, "kernel"),
-                       bias_quantizer=wq(n, "bias", BQ) if ub else None, activation=pick(rng, AQ), name=n)(inp)
+    if rng.integers(0, 3) == 0:
+      n = f"s1_{idx}"
+      x = qkeras.QSeparableConv1D(int(rng.integers(1, 4)), 3, padding=pick(rng, ["valid", "same"]), use_bias=ub, depthwise_quantizer=wq(n, "depthwise"),
+                                  pointwise_quantizer=wq(n, "pointwise"), bias_quantizer=wq(n, "bias", BQ) if ub else None, name=n)(inp)
+    else:
+      x = qkeras.QConv1D(int(rng.integers(1, 4)), 3, padding=pick(rng, ["valid", "same"]), use_bias=ub, kernel_quantizer=wq(n, "kernel"),
+                         bias_quantizer=wq(n, "bias", BQ) if ub else None, activation=pick(rng, AQ), name=n)(inp)
     x = L.Flatten(name=f"f{idx}")(x)
   for j in range(int(rng.integers(1, 3))):
     n = f"d{idx}_{j}"
